@@ -30,7 +30,8 @@ PermSeqs(S) == {p \in [1..Cardinality(S) -> S] : \A i, j \in 1..Cardinality(S) :
 -----------------------------------------------------------------------------
 \* C03: exact-key inputs x every subset of distractor inputs and distractor converters
 C03Params == {L("a", "T1", ""), L("a", "T1", "s"), L("", "T1", ""), L("", "T1", "s")}
-C03DI == {L("", "T1", ""), L("", "T1", "t"), L("b", "T1", ""), L("b", "T1", "s"), L("a", "T1", "t"), L("", "T2", ""), L("a", "T2", ""), L("a", "T2", "s")}
+C03DI == {L("", "T1", ""), L("", "T1", "t"), L("b", "T1", ""), L("b", "T1", "s"), L("a", "T1", "t"), L("", "T2", ""), L("a", "T2", ""), L("a", "T2", "s"),
+          L("a", "T1", "S"), L("", "T1", "S")}       \* subtypes are case sensitive: S is another subtype than s
 C03Conv(p, k) == CASE k = 1 -> F(<<>>, <<p>>)                                        \* provider of the very same label
                    [] k = 2 -> F(<<>>, <<L("", "T1", "")>>)                          \* provider of the type
                    [] k = 3 -> F(<<L("", "T2", "")>>, <<p>>)                         \* converter to the same label
@@ -155,7 +156,14 @@ C04Family == { Scn("C04", FE(t, <<>>, tf), <<L("", "T4", "")>>, WithFailing(cs, 
 \* provision either supplied directly or produced by a parameterless provider
 MatchU == {L(n, t, s) : n \in {"", "a", "b"}, t \in {"T1", "I1"}, s \in {"", "s", "t"}}
           \cup {L(n, "I12", s) : n \in {"", "a"}, s \in {"", "s"}}      \* an interface that implements I1 (and T2 implements it)
+\* unnamed types: the struct type U1, the pointer type P1 = *T1 and T1 itself are three types (P1 and T1 share their element
+\* type, U1 and T1 their underlying type; none of P1, U1 has a name of its own)
+MatchU2 == {L(n, t, s) : n \in {"", "a"}, t \in {"U1", "P1", "T1"}, s \in {"", "s"}}
+MatchFamily2 == { Scn("match", F(<<rq>>, <<>>), <<pv>>, <<>>) : rq \in MatchU2, pv \in MatchU2 }
+                \cup { Scn("match", F(<<rq>>, <<>>), <<>>, <<F(<<>>, <<pv>>)>>) : rq \in MatchU2, pv \in MatchU2 }
+                \cup { Scn("match", F(<<rq, L("b", "T2", "")>>, <<>>), <<pv, L("b", "T2", "")>>, <<>>) : rq \in MatchU2, pv \in MatchU2 }
 MatchFamily == { Scn("match", F(<<rq>>, <<>>), <<pv>>, <<>>) : rq \in MatchU, pv \in {x \in MatchU : x.type = "T1"} }
+               \cup MatchFamily2
                \cup { Scn("match", F(<<rq>>, <<>>), <<>>, <<F(<<>>, <<pv>>)>>) : rq \in MatchU, pv \in MatchU }
                \cup { Scn("match", F(<<rq>>, <<>>), <<L("", "T2", "")>>, <<F(<<L("", "T2", "")>>, <<pv>>)>>) : rq \in MatchU, pv \in MatchU }
 
